@@ -930,7 +930,9 @@ inline void runC14(Ctx &c)
                         Cexp(i * nc, j) += (LD)w(j);
                 // translation perturbs the waypoint differences by rounding of size eps*|P+w|; allow for it
                 double pmax = p.P.cwiseAbs().maxCoeff() + wmax;
-                double tol = 1e-8 * (1.0 + pmax / std::max(S, 1e-300));
+                // (the effect of that perturbation on the solution grows with the conditioning of the system, i.e. with the
+                // duration ratio; exactly representable translations, below, are judged tightly at every ratio)
+                double tol = 1e-8 * (1.0 + pmax / std::max(S, 1e-300)) * std::max(1.0, durRatio(p.T) / 30.0);
                 if (exactTr)
                 {
                     bool exact = true;
